@@ -209,7 +209,7 @@ MC_Marks == {3 * Hr - 10, 3 * Hr + 580, 3 * Hr + 595, 3 * Hr + 640}
 MC_Pools == {"pa", "pb"}
 MC_BudgetsOf ==
     ("pa" :> <<Bd("-", <<>>, -1, "pct", 50, <<>>),
-               Bd("0 * * * *", <<2 * Hr, 3 * Hr, 4 * Hr>>, 600, "count", 0, <<"Empty", "Underutilized">>),
+               Bd("0 * * * *", <<2 * Hr, 3 * Hr, 4 * Hr>>, 600, "count", 0, <<"Empty">>),
                Bd("-", <<>>, -1, "count", 1, <<"Drifted">>)>>) @@
     ("pb" :> <<Bd("-", <<>>, -1, "count", 1, <<>>)>>)
 MC_N == 4
